@@ -35,7 +35,7 @@ def main():
         rewrite.REWRITE_LOG.clear()
         t0 = time.time()
         rec = {"harness": hname, "config": job["ver"], "engine": h.engine, "expect": h.expect, "props": list(h.props),
-               "functions": list(h.functions), "assumes": list(h.assumes), "notes": h.notes}
+               "functions": list(h.functions), "assumes": list(h.assumes), "notes": h.notes, "soft": h.soft}
         try:
             res = core.explore(lambda ctx: h.fn(ctx, cfg), export=export, max_seconds=job.get("max_seconds", 900))
             rec.update(paths=res.paths, queries=res.queries, undecided_reason=res.undecided_reason,
